@@ -308,6 +308,8 @@ enum Case {
     FileMany(usize, usize),    // format, n
     FileAll(usize, u8),        // thorough: format, r : all 65536 (g,b) in palettes of 256
     SixBit(u8),
+    /// a 16 colour palette of six bit exact colours through the art formats that store it (xb, adf, idf): every entry, also the last one
+    ArtFile(usize, u8),
 }
 
 struct C16 {
@@ -369,6 +371,11 @@ fn build(tier: &str) -> C16 {
     for r in 0..64u8 {
         cases.push(Case::SixBit(r));
     }
+    for f in 0..3 {
+        for v in 0..6u8 {
+            cases.push(Case::ArtFile(f, v));
+        }
+    }
     C16 { cases }
 }
 
@@ -386,6 +393,7 @@ impl Engine for C16 {
             Case::FileOne(f, r) => json!({"kind": "palette file, 1 colour", "format": FORMATS[*f].0, "r": LEVELS[*r as usize], "g,b": "all 7x7 levels", "texts": "all 8x8 title/description combos x 2 authors x names on/off"}),
             Case::FileMany(f, n) => json!({"kind": "palette file, n colours", "format": FORMATS[*f].0, "n": n, "texts": "6 description values x names on/off"}),
             Case::FileAll(f, r) => json!({"kind": "palette file, all colours with this red value (256 palettes of 256)", "format": FORMATS[*f].0, "r": r}),
+            Case::ArtFile(f, v) => json!({"kind": "16 colour palette through an art file", "format": (["xb", "adf", "idf"][*f]), "variant": v}),
             Case::SixBit(r) => json!({"kind": "6-bit VGA palette idempotence", "r6": r, "g6,b6": "all 64x64"}),
         };
         json!({"engine": "palette", "idx": idx, "case": d, "key": "palette"})
@@ -432,6 +440,49 @@ impl Engine for C16 {
                     file_case(*f, &cols, "", "", "d", false, ctx);
                 }
                 ctx.count("nontrivial", 1);
+            }
+            Case::ArtFile(f, v) => {
+                let ext = ["xb", "adf", "idf"][*f];
+                ctx.count("evaluations", 1);
+                ctx.count("transitions", 2);
+                ctx.count("nontrivial", 1);
+                let mut buf = Buffer::new((80, 2));
+                buf.ice_mode = icy_engine::IceMode::Ice;
+                // six bit exact colours (c * 255 / 63 rounded as the engine's own table does): every entry differs from the DOS palette
+                let lv = |i: u32| -> u8 { let c = (i * 13 + *v as u32 * 7 + 5) % 64; ((c << 2) | (c >> 4)) as u8 };
+                let mut p = Palette::dos_default();
+                for i in 0..16u32 {
+                    if *v < 5 || i == 15 {
+                        p.set_color_rgb(i, lv(i), lv(i + 16), lv(i + 32));
+                    }
+                }
+                buf.palette = p;
+                use icy_engine::{AttributedChar, TextAttribute};
+                for x in 0..80 {
+                    buf.layers[0].set_char((x, 0), AttributedChar::new('A', TextAttribute::new((x % 16) as u32, ((x / 16) % 8) as u32)));
+                    buf.layers[0].set_char((x, 1), AttributedChar::new('B', TextAttribute::new(15 - (x % 16) as u32, 0)));
+                }
+                let mut o = icy_engine::SaveOptions::new();
+                o.lossles_output = true;
+                let want = snapshot(&buf.palette);
+                match catch(|| buf.to_bytes(ext, &o).and_then(|b| Buffer::from_bytes(std::path::Path::new(&format!("x.{ext}")), false, &b))) {
+                    Err(p) => ctx.panic(&p, json!({"format": ext, "variant": v})),
+                    Ok(Err(e)) => ctx.violation(format!("diff:palette-art-file:{ext}:refused"), json!({"format": ext, "variant": v, "error": e.to_string()})),
+                    Ok(Ok(got)) => {
+                        let g = snapshot(&got.palette);
+                        if g.len() < 16 || g[..16] != want[..16] {
+                            let i = (0..16).find(|i| g.get(*i) != want.get(*i)).unwrap_or(0);
+                            ctx.violation(format!("diff:palette-art-file:{ext}:colour-changed"), json!({"format": ext, "variant": v, "entry": i, "saved": want.get(i), "loaded": g.get(i)}));
+                        }
+                        let mut f = Fnv::new();
+                        for c in &g {
+                            f.u8(c.0);
+                            f.u8(c.1);
+                            f.u8(c.2);
+                        }
+                        ctx.state(f.finish());
+                    }
+                }
             }
             Case::SixBit(r) => {
                 let mut f = Fnv::new();
